@@ -279,8 +279,12 @@ class TLSTransportWrapper:
             data: Plaintext data to encrypt and send.
         """
         if self.tls_protocol.tls_conn:
-            self.tls_protocol.tls_conn.send(data)
-            self.tls_protocol._flush_outgoing()
+            # send() encrypts at most one TLS record (16 KiB) per call
+            view = memoryview(data)
+            while len(view) > 0:
+                sent = self.tls_protocol.tls_conn.send(view[:16384])
+                self.tls_protocol._flush_outgoing()
+                view = view[sent:]
 
     def close(self) -> None:
         """Initiate TLS shutdown and close."""
